@@ -84,6 +84,8 @@ def build(desc):
         raise ValueError(c.cmode)
     c.batch = desc.get("batch") or gen.BATCH_REGIMES[rng.randint(len(gen.BATCH_REGIMES))]
     c.bs = gen.batch_size_for(rng, c.batch, len(c.cset))
+    if e.bs1_only:
+        c.bs = 1
     c.k = min(c.bs, len(c.cset))
     c.n_labeled = int(c.lab.sum())
     c.n_classes_obs = len(set(c.y_true[c.lab].tolist())) if c.kind != "reg" else None
